@@ -400,7 +400,7 @@ impl NetcodeServer {
     }
 
     fn process_packet_internal<'a, 's>(&'s mut self, addr: SocketAddr, buffer: &'a mut [u8]) -> Result<ServerResult<'a, 's>, NetcodeError> {
-        if buffer.len() < 2 + NETCODE_MAC_BYTES {
+        if buffer.len() < 1 + NETCODE_MAC_BYTES {
             return Err(NetcodeError::PacketTooSmall);
         }
 
